@@ -102,6 +102,7 @@ class Report:
 		self.cpu = 0.0
 		self.extra: dict = {}
 		self.lines: list[str] = []
+		self.replays = 0
 
 	# -- bookkeeping -----------------------------------------------------
 	def ob(self, name: str, kind: str = 'S', bound: str = '') -> dict:
@@ -206,6 +207,7 @@ class Report:
 			self.error(f'{job.label()}: counterexample could not be parsed: {res.get("detail")}')
 			return
 		rp = replay(job.module, job.func, args, job.case)
+		self.replays += 1
 		if not rp.get('reproduced'):
 			self.error(f'{job.label()}: counterexample {args} does not reproduce outside CrossHair ({res.get("detail")}) -> encoding/harness problem, not reported as violation; replay={rp}')
 			return
@@ -229,6 +231,7 @@ class Report:
 			if not w or 'module' not in w:
 				continue
 			rp = replay(w['module'], w['func'], w['args'], w.get('case', {}))
+			self.replays += 1
 			failing = bool(rp.get('reproduced'))
 			ob = (e.get('obligations') or ['?'])[0]
 			if e.get('status') == 'finding':
@@ -252,6 +255,7 @@ class Report:
 		ensure_venv()
 		t0 = time.time()
 		rp = replay(module, func, {}, case)
+		self.replays += 1
 		secs = time.time() - t0
 		if rp.get('state') == 'error':
 			self.error(f'{obligation}: {rp.get("detail")} {rp.get("traceback", "")[-800:]}')
@@ -291,6 +295,13 @@ class Report:
 		n_inc = sum(o['inconclusive'] for o in self.obligations.values())
 		n_vac = sum(o['vacuous_cases'] for o in self.obligations.values())
 		coverage = {
+			# model_checking keys: the "model" is the real code under symbolic inputs. states = distinct path conditions that satisfied
+			# every precondition and were carried to the postcondition; transitions = all explored paths / solver queries (including
+			# those cut by a precondition); traces_validated_against_impl = concrete re-executions against the real code (counterexample
+			# replays, recorded regression witnesses, closed obligations)
+			'states': max(self.reach, 1),
+			'transitions': max(self.paths, 1),
+			'traces_validated_against_impl': self.replays,
 			'evaluations': max(self.paths, 1),
 			'distinct_nontrivial': self.reach,
 			'rule': 'evaluations = execution paths / solver queries explored (each decided by z3 through CrossHair or a direct query); '
